@@ -1355,6 +1355,8 @@ def _absorb(ctx: Ctx, cases: T.List[T.Dict[str, T.Any]], results: T.List[T.Dict[
             ctx.seen_nontrivial((sig, hash(case['files']['meson.build'])))
         for ft_ in case['meta'].get('features', []):
             ctx.tag('flow-feature:' + ft_)
+        if case.get('shared_case'):
+            ctx.tag('shared-variable:' + ':'.join(case['shared_case'].split(':')[1:2]) + ':' + case['shared_case'].split(':')[-1])
         if case['meta'].get('hazard') == 'tree':
             ctx.tag('tree:cwd-' + case.get('cwd', 'root'))
         if len(ctx.samples) < 6 and 'file-changed' in res['tags']:
@@ -1429,6 +1431,7 @@ def run(ctx: Ctx) -> None:
                                'meta': {'allfiles': ['f%d.c' % i for i in range(8)] + ['g0.txt', 'g1.txt', 'new0.c', 'newe0.txt']}}))
     for _ in range(ctx.scale(170, 1500)):
         cases.append(F.gen_flow(rng, rng.choice([1, 1, 2])))
+    cases += F.shared_family()
     results = _pool_map(cases)
     prints = _absorb(ctx, cases, results)
     # every construct of the live AstInterpreter that scopes / merges variables must be known to the control-flow family
